@@ -1,6 +1,7 @@
 package vc
 
 import (
+	"regexp"
 	"sort"
 	"fmt"
 	"go/types"
@@ -155,6 +156,30 @@ func InstallJSONDecodeLibrary(w *World) {
 			e.assume(e.curReach, implies(and(okT, sx("docNull", d)), and(eq(sx("select", newH, m), sx("select", oldH, m)), eq(sx("select", newV, m), sx("select", oldV, m)))))
 			return true
 		}
+		if sl, isSl := T.Underlying().(*types.Slice); isSl && isRawMessage(sl.Elem()) {
+			// the raw items of an array document
+			e.D.UF("docLen", []string{"Doc"}, "Int")
+			e.D.UF("docItem", []string{"Doc", "Int"}, "Doc")
+			e.D.Axiom("docLen", "(forall ((d Doc)) (! (>= (docLen d) 0) :pattern ((docLen d))))")
+			ef := e.rawListErrFn()
+			e.assume(e.curReach, eq(okT, not(sx(ef, d))))
+			nv := e.newSym("rawitems", "Slice")
+			e.paramLikeFacts(nv, T)
+			e.allocIdx++
+			hk := e.D.heapKey(sl.Elem())
+			hs := e.D.heapSort(sl.Elem())
+			e.heapSorts[hk] = hs
+			h := e.heapName(e.cur, hk, hs)
+			// a fresh array holding the raw items (older cells keep their content: the heap symbol is unchanged,
+			// the facts below only speak about the fresh array)
+			e.assume(e.curReach, implies(okT, ite(sx("docNull", d), eq(nv, "slice_nil"),
+				and(eq(sx("sl_len", nv), sx("docLen", d)), eq(sx("sl_off", nv), "0"), sx(">", sx("sl_base", nv), "0"),
+					eq(sx("atime", sx("sl_base", nv)), fmt.Sprintf("(+ T0 %d)", e.allocIdx)),
+					fmt.Sprintf("(forall ((i Int)) (! (=> (and (<= 0 i) (< i (docLen %s))) (and (= (rawdoc (select %s (elem (sl_base %s) i))) (docItem %s i)) (> (sl_base (select %s (elem (sl_base %s) i))) 0))) :pattern ((elem (sl_base %s) i))))", d, h, nv, d, h, nv, nv)))))
+			e.store(e.cur, p, T, nv)
+			e.Assumed["json.Unmarshal into []json.RawMessage: fails exactly on non-null non-array documents; yields the raw items in order (null yields nil)"] = true
+			return true
+		}
 		if key, fieldT, ok := singleTaggedStringField(T); ok {
 			// struct{ Key string `json:"<key>"` }: the discriminator probe
 			e.D.UF("docStrMember", []string{"Doc", "Str"}, "Str")
@@ -187,6 +212,13 @@ func (e *FuncEnc) rawMapErrFn() string {
 	e.needUn()
 	f := e.D.UF("jdecErr_rawmap", []string{"Doc"}, "Bool")
 	e.D.Axiom("jdecErr_rawmap", "(forall ((d Doc)) (! (= (jdecErr_rawmap d) (and (not (docNull d)) (not (= (docKind d) 1)))) :pattern ((jdecErr_rawmap d))))")
+	return f
+}
+
+func (e *FuncEnc) rawListErrFn() string {
+	e.needUn()
+	f := e.D.UF("jdecErr_rawlist", []string{"Doc"}, "Bool")
+	e.D.Axiom("jdecErr_rawlist", "(forall ((d Doc)) (! (= (jdecErr_rawlist d) (and (not (docNull d)) (not (= (docKind d) 2)))) :pattern ((jdecErr_rawlist d))))")
 	return f
 }
 
@@ -456,7 +488,35 @@ func (jf *JSONFamily) receiverFrame(e *FuncEnc, c string, T types.Type, pre, pos
 		if h0 == h1 {
 			continue
 		}
-		conds := append(byKey[k], fmt.Sprintf("(<= (atime a) (+ T0 %d))", e.allocIdx))
+		// "existed before the call": allocated no later than now, or an element cell of a slice
+		// carried around an enclosing loop (objects made in earlier iterations bear later static times)
+		existed := []string{fmt.Sprintf("(<= (atime a) (+ T0 %d))", e.allocIdx)}
+		if e.curBlock != nil {
+			for h, li := range e.loops {
+				if !li.body[e.curBlock] {
+					continue
+				}
+				for _, in := range h.Instrs {
+					phi, ok := in.(*ssa.Phi)
+					if !ok {
+						break
+					}
+					pv, have := e.val[phi]
+					sl, isSl := phi.Type().Underlying().(*types.Slice)
+					if !have || !isSl {
+						continue
+					}
+					for _, lf := range e.leaves(sl.Elem(), func(s string) string { return s }, 0) {
+						if lf.key != k {
+							continue
+						}
+						ra := lf.root("a")
+						existed = append(existed, and(eq(sx("akind", ra), "1"), eq(sx("elem_base", ra), sx("sl_base", pv)), eq("a", lf.addr(ra))))
+					}
+				}
+			}
+		}
+		conds := append(byKey[k], or(existed...))
 		out = append(out, NamedFormula{Name: "frame:" + k, Formula: fmt.Sprintf("(forall ((a Int)) (! (=> %s (= (select %s a) (select %s a))) :pattern ((select %s a))))", and(conds...), h1, h0, h1)})
 	}
 	e.Assumed["UnmarshalJSON / unmarshalJSONInnerBody write only their receiver, the raw map and fresh memory (C20 proves the frame obligations of the same functions)"] = true
@@ -826,4 +886,139 @@ func hasMethod(n *types.Named, name string) bool {
 		}
 	}
 	return false
+}
+
+// ---------------------------------------------------------------- array components (decoding)
+//
+//	emitted func (*A).unmarshalJSONInnerBody(m []json.RawMessage) error
+//	  ensures err == nil ==> len(*c) == len(m) && for i < len(m): item i decodes and (*c)[i] is its decoded value
+//	  ensures err != nil ==> some item fails to decode
+//	  loop #0 invariant len(out) == processed && for q < processed: item q decodes and out[q] is its decoded value
+//	emitted func (*A).UnmarshalJSON(bs []byte) error
+//	  ensures the same over docItem(rawdoc(bs), i); a non-null non-array document is rejected
+
+func (jf *JSONFamily) arrayItemSpec(e *FuncEnc, jt *jsonType, d, raw string) (fails, value, problem string) {
+	elemT := jt.Named.Underlying().(*types.Slice).Elem()
+	return jf.decodeSpec(e, d, raw, elemT, jt.Schema.Items)
+}
+
+func (jf *JSONFamily) installArrayUnInner(f *ssa.Function, jt *jsonType) {
+	A := jt.Named
+	elemT := A.Underlying().(*types.Slice).Elem()
+	mT := f.Params[1].Type()
+	rawT := mT.Underlying().(*types.Slice).Elem()
+	c := newFamilyContract(f)
+	c.Options["family"] = "json-unmarshal-array-inner"
+	if _, _, p := jf.arrayItemSpec(&FuncEnc{D: NewDecls()}, jt, "d", "r"); p != "" {
+		jf.note(A.Obj().Name() + ": " + p)
+		return
+	}
+	c.PreHook = func(e *FuncEnc, args []string) []NamedFormula {
+		e.needUn()
+		return []NamedFormula{{Name: "receiver", Props: []string{"C08"}, Formula: not(eq(args[0], "0"))}}
+	}
+	// per-item terms over the raw slice m as it is in state st
+	itemTerms := func(e *FuncEnc, m string, st *state, idx string) (fails, value string) {
+		hk, hs := e.D.heapKey(rawT), e.D.heapSort(rawT)
+		e.heapSorts[hk] = hs
+		raw := sx("select", e.heapName(st, hk, hs), sx("elem", sx("sl_base", m), sx("+", sx("sl_off", m), idx)))
+		fl, vl, _ := jf.arrayItemSpec(e, jt, sx("rawdoc", raw), raw)
+		return fl, vl
+	}
+	prefix := func(e *FuncEnc, m string, mst *state, out string, ost *state, upto string, goal bool) string {
+		// out[q] == decoded(m[q]) and item q decodes, for q in [0, upto)
+		ob, oo := constOf(e, "ua_ob", "Int", sx("sl_base", out)), constOf(e, "ua_oo", "Int", sx("sl_off", out))
+		mb, mo := constOf(e, "ua_mb", "Int", sx("sl_base", m)), constOf(e, "ua_mo", "Int", sx("sl_off", m))
+		hk, hs := e.D.heapKey(rawT), e.D.heapSort(rawT)
+		e.heapSorts[hk] = hs
+		rh := constOf(e, "ua_rh", hs, e.heapName(mst, hk, hs))
+		// quantified over the absolute cell index qa of m (no arithmetic in the trigger)
+		raw := sx("select", rh, sx("elem", mb, "qa"))
+		fl, vl, _ := jf.arrayItemSpec(e, jt, sx("rawdoc", raw), raw)
+		got := e.load(ost, sx("elem", ob, sx("+", oo, sx("-", "qa", mo))), elemT)
+		body := fmt.Sprintf("(=> (and (<= %s qa) (< qa (+ %s %s))) (and (not %s) %s))", mo, mo, upto, fl, jf.sameDecoded(e, got, vl, elemT))
+		if goal {
+			// proved for an arbitrary fresh index (explicit skolemisation of the goal)
+			sk := e.newSym("sk_qa", "Int")
+			return replaceVar(body, "qa", sk)
+		}
+		return fmt.Sprintf("(forall ((qa Int)) (! %s :pattern ((elem %s qa))))", body, mb)
+	}
+	spec := func(e *FuncEnc, cptr, m, err string, pre, post *state, goal bool) []NamedFormula {
+		e.needUn()
+		okk := eq(sx("if_tag", err), "0")
+		res := e.load(post, cptr, A)
+		n := sx("sl_len", m)
+		_ = itemTerms
+		mb, mo := constOf(e, "ua_mb", "Int", sx("sl_base", m)), constOf(e, "ua_mo", "Int", sx("sl_off", m))
+		hk, hs := e.D.heapKey(rawT), e.D.heapSort(rawT)
+		e.heapSorts[hk] = hs
+		rh := constOf(e, "ua_rh", hs, e.heapName(pre, hk, hs))
+		rawx := sx("select", rh, sx("elem", mb, "qx"))
+		fl, _, _ := jf.arrayItemSpec(e, jt, sx("rawdoc", rawx), rawx)
+		return []NamedFormula{
+			{Name: "ensures#items-decoded", Props: []string{"C08", "C06"}, Formula: implies(okk, and(eq(sx("sl_len", res), n), prefix(e, m, pre, res, post, n, goal)))},
+			{Name: "ensures#rejects-only-faulty", Props: []string{"C08"}, Formula: implies(not(okk), fmt.Sprintf("(exists ((qx Int)) (! (and (<= %s qx) (< qx (+ %s %s)) %s) :pattern ((elem %s qx))))", mo, mo, n, fl, mb))},
+		}
+	}
+	c.RetHook = func(e *FuncEnc, results []string) []NamedFormula {
+		return pruneByReturn(e, spec(e, e.val[f.Params[0]], e.val[f.Params[1]], results[0], e.entry, e.cur, true))
+	}
+	c.PostHook = func(e *FuncEnc, args, results []string, pre, post *state) []NamedFormula {
+		fs := spec(e, args[0], args[1], results[0], pre, post, false)
+		// the same item clause keyed by the cells of the result (for callers that reason from the result)
+		{
+			m := args[1]
+			res := e.load(post, args[0], A)
+			rb, ro := constOf(e, "ua_rb", "Int", sx("sl_base", res)), constOf(e, "ua_ro", "Int", sx("sl_off", res))
+			mb, mo := constOf(e, "ua_mb", "Int", sx("sl_base", m)), constOf(e, "ua_mo", "Int", sx("sl_off", m))
+			hk, hs := e.D.heapKey(rawT), e.D.heapSort(rawT)
+			rh := constOf(e, "ua_rh", hs, e.heapName(pre, hk, hs))
+			raw := sx("select", rh, sx("elem", mb, sx("+", mo, sx("-", "ra", ro))))
+			fl, vl, _ := jf.arrayItemSpec(e, jt, sx("rawdoc", raw), raw)
+			got := e.load(post, sx("elem", rb, "ra"), elemT)
+			fs = append(fs, NamedFormula{Name: "ensures#items-decoded(result-keyed)", Formula: implies(eq(sx("if_tag", results[0]), "0"),
+				fmt.Sprintf("(forall ((ra Int)) (! (=> (and (<= %s ra) (< ra (+ %s (sl_len %s)))) (and (not %s) %s)) :pattern ((elem %s ra))))", ro, ro, m, fl, jf.sameDecoded(e, got, vl, elemT), rb))})
+		}
+		return append(fs, jf.receiverFrame(e, args[0], A, pre, post)...)
+	}
+	c.Modifies = jf.receiverKeys(A, nil)
+	for _, lf := range (&FuncEnc{D: NewDecls(), heapSorts: map[string]string{}}).leaves(elemT, func(s string) string { return s }, 0) {
+		c.Modifies[lf.key] = true
+	}
+	c.LoopHook = func(e *FuncEnc, ord int, env *cenv) []NamedFormula {
+		e.needUn()
+		st := env.st
+		m := e.val[f.Params[1]]
+		idx, ok1 := env.vars["rangeindex"]
+		out, ok2 := env.vars["out"]
+		if !ok1 || !ok2 {
+			return []NamedFormula{{Name: "invariant#shape", Props: []string{"C08"}, Formula: "false"}}
+		}
+		done := sx("+", idx.s, "1")
+		invs := []NamedFormula{
+			{Name: "invariant#length", Props: []string{"C08"}, Formula: and(eq(sx("sl_len", out.s), done), sx(">", sx("sl_base", out.s), "0"), sx(">=", sx("atime", sx("sl_base", out.s)), "T0"))},
+			{Name: "invariant#items-decoded", Props: []string{"C08", "C06"}, Formula: prefix(e, m, e.entry, out.s, st, done, e.invAsGoal)},
+		}
+		// the raw items are not written (they may share a heap with leaves of the element type)
+		hk, hs := e.D.heapKey(rawT), e.D.heapSort(rawT)
+		e.heapSorts[hk] = hs
+		h0, h1 := e.heapName(e.entry, hk, hs), e.heapName(st, hk, hs)
+		if h0 != h1 {
+			mb := constOf(e, "ua_mb", "Int", sx("sl_base", m))
+			c0, c1 := constOf(e, "ua_h0", hs, h0), constOf(e, "ua_h1", hs, h1)
+			invs = append(invs, NamedFormula{Name: "invariant#raw-items-unchanged", Props: []string{"C08"}, Formula: skolemIf(e, e.invAsGoal, "qa", fmt.Sprintf("(= (select %s (elem %s qa)) (select %s (elem %s qa)))", c1, mb, c0, mb), sx("elem", mb, "qa"))})
+		}
+		return invs
+	}
+	jf.Em.W.Contracts[f.String()] = c
+}
+
+// replaceVar substitutes a bound variable name by a term (token-wise).
+func replaceVar(body, v, by string) string {
+	re := regexp.MustCompile(`(^|[\s(])` + regexp.QuoteMeta(v) + `([\s)]|$)`)
+	for i := 0; i < 2; i++ { // adjacent occurrences share a separator
+		body = re.ReplaceAllString(body, "${1}"+strings.ReplaceAll(by, "$", "$$")+"${2}")
+	}
+	return body
 }
